@@ -7,6 +7,8 @@ COMMON_ASSUME = [
 ]
 
 TIERS = {
+    "C17": {"quick": {"runs": 160, "budget_s": 100, "run_timeout_s": 600},
+            "thorough": {"runs": 3000, "budget_s": 1500, "run_timeout_s": 1200}},
     "C11": {"quick": {"runs": 160, "budget_s": 100, "run_timeout_s": 600},
             "thorough": {"runs": 3000, "budget_s": 1500, "run_timeout_s": 1500}},
     "C08": {"quick": {"runs": 300, "budget_s": 90, "run_timeout_s": 400},
@@ -57,6 +59,19 @@ TM_RULE = ("case = (generated program, argument, seeded history of trace transit
            "or a fault fired")
 
 META = {
+    "C17": {"LEVEL": "exploration",
+            "RULE": "case = (conjugate Gaussian target of dimension d in {1,2} with d_obs in {1,2}, variational family in {mean-field, full "
+                    "covariance, hand-written scalar} x {reparam, reinforce}, parameters (optionally the exact posterior), learning rate, "
+                    "iteration count incl. 1, optimize_vi | elbo_vi); per-draw identities under reference-sampled scripts, quadrature trees "
+                    "for value and every gradient direction, optimisation history replayed iteration by iteration under the recorded script; "
+                    "distinct = distinct (family, estimator, dims, iterations, api, at-posterior); non-trivial = d >= 2 or >= 2 iterations",
+            "COMPONENTS": {"real": ["genjax.inference.vi elbo_factory / optimize_vi / elbo_vi / families", "genjax.adev Expectation + mvn estimators",
+                                    "genjax.core merge / assess / simulate"],
+                           "stub": ["SCRIPTED: Seed key splitting and leaf samplers", "sim/jaxcompat.py"], "regimes": "SCRIPTED"},
+            "ASSUMPTIONS": COMMON_ASSUME + ["closed-form Gaussian posterior / evidence in float64; reference ELBO by 24-node Gauss-Hermite; gradients by central differences"],
+            "REQUIRED_PROBES": {"quick": ["tree_complete", "est_reparam", "est_reinforce", "history_optimize_vi"],
+                                "thorough": ["tree_complete", "est_reparam", "est_reinforce", "history_optimize_vi", "history_elbo_vi", "at_posterior",
+                                             "fam_full_cov", "fam_mean_field", "fam_scalar", "iters_1"]}},
     "C11": {"LEVEL": "exploration",
             "RULE": "case = (expectation program composing 1-3 ADEV primitives with deterministic glue and optionally a cond on a discrete "
                     "value, two scalar parameters, return kind; every internal draw scripted: discrete sites enumerated, continuous sites as "
@@ -278,6 +293,8 @@ META = {
 
 DST = "deterministic simulation with fault injection"
 CLAIMS = {
+    "C17": dict(text="every draw of the ELBO estimator is scripted: per-draw identity with log p - log q, tightness at the exact posterior for every draw, quadrature totals for the ELBO and each gradient direction against closed forms, and the optimisation history replayed iteration by iteration under the script it consumed",
+                ref="DESIGN.md 4 C17", note="conjugate Gaussian targets only (closed forms); float32 tolerance 2e-3 / 1e-2 (gradients)", technique=DST + " (SCRIPTED randomness seam: quadrature trees + recorded optimisation history replay)"),
     "C11": dict(text="every internal draw of the estimators is scripted: weighted outcome trees (enumeration x quadrature nodes) give E[estimate] and E[jvp tangent] exactly up to quadrature error and compare them with E[f], dE[f] of the reference integrand; enumeration-only programs consume no randomness; per-draw grad/jvp consistency under seed/jit/modular_vmap",
                 ref="DESIGN.md 4 C11", note="smooth integrands, <=3 primitives, quadrature tolerance 2e-3/5e-3", technique=DST + " (SCRIPTED randomness seam: outcome tree x quadrature nodes)"),
     "C08": dict(text="TRACER sites under the real ModularVmap show, per lane, which parameter cell each draw was paired with and which key it got; layouts compared with jax.vmap of the deterministic skeleton for generated axis specifications; Vmap/repeat combinators checked lane by lane against the reference for all five GFI methods",
